@@ -256,7 +256,7 @@ def run_fix_laws(sp, enc, col, emit, rnd, model, max_vars=6):
     rnd.shuffle(fx)
     did = False
     for i in fx[:max_vars]:
-        dv = dvs[i]
+        dv = P.all_dvs[i]
         values = list(range(dv.n_opts)) if dv.is_discrete else [dv.bounds[0], (dv.bounds[0] + dv.bounds[1]) / 2]
         for v in values[:4]:
             col.count('monitor_fix_evaluations')
@@ -295,27 +295,36 @@ def run_fix_laws(sp, enc, col, emit, rnd, model, max_vars=6):
                     except Exception as e:  # noqa
                         emit('fix_exception', {'stage': 'statistics', 'exc': D.exc_info(e), 'enc': enc},
                              where={'stage': 'statistics', 'exc': type(e).__name__})
-                # decodes of the restricted space: the variable has the fixed value or is inactive in the result
+                # decodes of the restricted space describe the subset: if the un-fixed problem decodes the full
+                # vector (fixed value inserted) to a design where the variable has that value or is inactive, the
+                # restricted problem must decode to the same architecture
                 vecs, _ = D.declared_space(P.gp, 40, rnd)
+                free_idx = [j for j in range(len(P.all_dvs)) if j != i]
                 for x in vecs:
                     col.count('monitor_fixed_decode_evaluations')
-                    g, x1, a1 = P.gp.get_graph(x)
-                    obs = O.instance(g, P.b)
-                    nm = P.b.name(dv.node)
-                    if isinstance(dv.node, an.SelectionChoiceNode):
-                        key = [k for k, cn in P.b.sel.items() if cn is dv.node][0]
-                        assign, problems = O.read_assignment(obs, model)
-                        if not problems and key in assign:
-                            want = P.b.name(dv.options[int(v)])
-                            if assign[key] != want:
-                                emit('fixed_decode_outside_subset', {'var': dv.name, 'value': v, 'x': x,
-                                                                     'instance_option': assign[key], 'fixed_option': want,
-                                                                     'enc': enc}, where={'kind': 'sel'})
-                    elif nm in dict(obs['dv']):
-                        stored = dict(obs['dv'])[nm]
-                        if abs(float(stored) - float(v)) > 1e-9:
-                            emit('fixed_decode_outside_subset', {'var': dv.name, 'value': v, 'x': x, 'stored': stored,
-                                                                 'enc': enc}, where={'kind': 'dv'})
+                    full = [None] * len(P.all_dvs)
+                    for j, xv in zip(free_idx, x):
+                        full[j] = xv
+                    full[i] = v
+                    try:
+                        want, _g = F.decode(full, True, model)
+                    except Exception:  # noqa
+                        continue
+                    if not (want['a'][i] and abs(want['x'][i] - float(v)) <= 1e-9 and
+                            all(abs(float(p_) - float(q_)) <= 1e-9 for p_, q_ in zip(want['x'], full))):
+                        continue  # only a vector that is valid as given, with the variable active at v, must survive
+                    try:
+                        got, _g = P.decode(x, True, model)
+                    except Exception as e:  # noqa
+                        info = D.exc_info(e)
+                        emit('fix_exception', {'var': dv.name, 'value': v, 'x': x, 'exc': info, 'enc': enc,
+                                               'unfixed_decode': want},
+                             where={'exc': info['type'], 'site': info['site'], 'stage': 'restricted_decode'})
+                        break
+                    if got['arch'] != want['arch'] or got['x'] != [xx for j, xx in enumerate(want['x']) if j != i]:
+                        emit('fixed_decode_outside_subset', {'var': dv.name, 'value': v, 'x': x, 'restricted': got,
+                                                             'unfixed': want, 'enc': enc})
+                        break
                 P.free(i)
             except Exception as e:  # noqa
                 info = D.exc_info(e)
@@ -351,7 +360,7 @@ def run_fix_laws(sp, enc, col, emit, rnd, model, max_vars=6):
             emit('fix_exception', {'stage': 'after_free', 'exc': info, 'enc': enc},
                  where={'exc': info['type'], 'site': info['site'], 'stage': 'after_free'})
     # rejections
-    for i, dv in enumerate(dvs):
+    for i, dv in enumerate(P.all_dvs):
         before = (dict(P.gp.fixed_values), [d.name for d in P.gp.des_vars])
         if isinstance(dv.node, an.ConnectionChoiceNode):
             col.count('monitor_rejection_evaluations')
@@ -405,6 +414,12 @@ def check_case(prop, sp, col, shard, n_hist, depth, seed_parts):
     sp = S.normalize(sp)
     flags = S.classify(sp)
     model = R.Model(sp)
+    try:
+        if not model.architectures(limit=5000):
+            col.count('skipped_no_architecture')
+            return
+    except OverflowError:
+        pass
     emit = Emit(prop, col, sp, flags)
     rnd = gen.rng_for('histops', *seed_parts)
     total = 0
@@ -450,7 +465,10 @@ def fix_free_sequence(sp, enc, col, emit, rnd, model):
             n += 1
             col.count('monitor_fix_free_steps')
             if rnd.random() < .5:
-                P.gp.get_graph(rand_vec(P, rnd))
+                try:
+                    P.gp.get_graph(rand_vec(P, rnd))
+                except RuntimeError:
+                    pass  # the combination of fixed values may leave no design at all: an explicit error is fine
         for i in list(fixed):
             P.free(i)
         rows, rows_f = P.enumerate(), F.enumerate()
